@@ -253,7 +253,7 @@ Theorem none_refuted :
 Proof. repeat split; try (intros cx; destruct cx); reflexivity. Qed.
 
 (** a value that closes the attribute early and goes on is not a value any more *)
-Definition inj_payload : str := [97; 34; 32; 98; 61; 34; 99].   (* a" b="c *)
+Definition inj_payload : str := [97; 34; 32; 98; 61; 34; 99].   (* a, quote, blank, b, equals, quote, c *)
 Lemma attr_injection_broken : lex_slot AttrDq inj_payload = Broken.
 Proof. reflexivity. Qed.
 
